@@ -466,6 +466,9 @@ class Interp:
                 return V(n['c'][0])          # wrappers that the extractor keeps inline
             return None
 
+        if k in ('SubstNonTypeTemplateParmExpr', 'ConstantExpr', 'SizeOfPackExpr') and e.get('v') is not None:
+            val[i] = e['v']
+            return
         if k in ('CXXNullPtrLiteralExpr', 'GNUNullExpr'):
             val[i] = Ptr(None)
             return
